@@ -37,7 +37,9 @@ REAL_VS_STUB = {
     "real": ["droplets.* from the working tree", "numpy/scipy least_squares, ndimage.label",
              "py-pde grids/fields/MemoryStorage", "concurrent.futures.Executor.map logic"],
     "stub": ["ProcessPoolExecutor -> simkit.simexec.SimPool (single-threaded, explicit "
-             "completion order, pickles every task and result)"],
+             "completion order, pickles every task and result); a small share of runs "
+             "(counter real_pool_calls) additionally uses the REAL ProcessPoolExecutor with "
+             "delayed tasks as a cross-check"],
 }
 TIERS = {
     "quick": {"runs": 480, "budget_s": 70, "chunk": 6, "det_pairs": 32, "fresh": 4},
@@ -204,8 +206,13 @@ def generate(streams: Streams, tier: str, index: int) -> dict:
             for k in ("threshold", "minimal_radius", "modes", "refine_args", "interface_width"):
                 opts.pop(k, None)
             opts["method"] = rng.choice(["overlap", "distance"])
-    return {"system": system, "frames": frames, "times": times, "options": opts,
+    case = {"system": system, "frames": frames, "times": times, "options": opts,
             "schedules": gen_schedules(srng, tasks, n_sample, 0.35), "tasks_expected": tasks}
+    # cross-check configuration: the same input under the REAL process pool with per-task
+    # delays that let later tasks finish first (order-insensitive oracle, never a false alarm)
+    if index % (60 if tier == "quick" else 12) == 7:
+        case["real_pool"] = {"workers": srng.choice([2, 3, "auto"]), "delay_ms": srng.choice([20, 60])}
+    return case
 
 
 # --------------------------------------------------------------------------- execution
@@ -267,6 +274,56 @@ def _build_call(case: dict):
                 st, method=opts["method"], refine=opts["refine"], num_processes=n,
                 progress=False)
     return call
+
+
+_ORIG: dict = {}
+
+
+class _Delayed:
+    """Picklable wrapper that sleeps before delegating (real-pool cross-check only)."""
+
+    def __init__(self, name, delay_ms):
+        # the original function is looked up by name in a module-level table that forked
+        # pool workers inherit (the function itself cannot be pickled while it is patched)
+        self.name, self.delay_ms = name, delay_ms
+
+    def __call__(self, *args, **kwargs):
+        import time as _time
+        import zlib
+
+        key = args[-1] if args else None
+        data = getattr(key, "data", None)
+        h = zlib.crc32(np.asarray(data).tobytes()) if data is not None else 0
+        _time.sleep((h % 3) * self.delay_ms / 1000.0)  # different tasks, different delays
+        return _ORIG[self.name](*args, **kwargs)
+
+
+def _real_pool_crosscheck(case, call, fp0, system, V, cnt, log):
+    import droplets.image_analysis as ia
+
+    rp = case["real_pool"]
+    orig_refine, orig_locate = ia.refine_droplet, ia.locate_droplets
+    _ORIG["refine_droplet"], _ORIG["locate_droplets"] = orig_refine, orig_locate
+    ia.refine_droplet = _Delayed("refine_droplet", rp["delay_ms"])
+    if system in ("from_storage", "tracks_from_storage"):
+        ia.locate_droplets = _Delayed("locate_droplets", rp["delay_ms"])
+    try:
+        st, res = _guarded(lambda: call(rp["workers"]))
+    finally:
+        ia.refine_droplet, ia.locate_droplets = orig_refine, orig_locate
+    cnt.inc("real_pool_calls")
+    if st != "ok":
+        V.append(Violation("C15.O1", f"call under the real process pool (workers={rp['workers']}) "
+                           f"raised {getattr(res, 'text', res)!r} although the serial call returned",
+                           {"system": system, "pool": "real",
+                            "exc_type": getattr(res, "exc_type", type(res).__name__)}))
+        return
+    fp = _result_fingerprint(system, res)
+    log.add("real_pool", fp=fp)
+    if fp != fp0:
+        V.append(Violation("C15.O1", f"result under the real process pool (workers={rp['workers']}, "
+                           f"delayed tasks) differs from the serial result: {_diff(fp0, fp)}",
+                           {"system": system, "pool": "real", "kind": _diff(fp0, fp).split(':')[0]}))
 
 
 def _guarded(fn):
@@ -373,6 +430,8 @@ def execute(case: dict) -> Outcome:
             violations.append(Violation(
                 "C15.O2", "repeating the parallel analysis under the same schedule gave a "
                 "different result", {"system": system, "path": "parallel"}))
+    if case.get("real_pool") and not violations:
+        _real_pool_crosscheck(case, call, fp0, system, violations, cnt, log)
     key = data_hash(np.frombuffer(repr(inter_keys).encode(), dtype=np.uint8))
     return Outcome(digest=log.digest(), violations=violations, counters=cnt,
                    sim_time={"pool_seconds": sim_seconds}, interleaving=key,
